@@ -167,11 +167,16 @@ func VerifC16UserDict() {
 	users := make([]verifUser, k)
 	for i := range users {
 		u := verifUser{name: fmt.Sprintf("User%d", i), display: fmt.Sprintf("u%d", i)}
-		switch vf.NondetIntRange("naming", 0, 2) {
+		switch vf.NondetIntRange("naming", 0, 3) {
 		case 1:
 			u.name = ""
 		case 2:
 			u.name = "User0" // a later entry re-using an earlier name (its own display stays)
+		case 3:
+			u.name, u.display = "DominantSeventh", "7" // re-defining a built-in under its own name and symbol
+		}
+		if u.name != "DominantSeventh" && vf.NondetIntRange("symbol", 0, 1) == 1 {
+			u.display = "sus4" // a new chord taking over a symbol that is already in use
 		}
 		e := vf.NondetIntRange("extends", 0, k+2)
 		switch {
@@ -223,15 +228,35 @@ func VerifC16UserDict() {
 		}
 		return false
 	}
-	for _, u := range users {
-		if u.name == "" || (u.extends == "" && len(u.attrs) == 0) || (u.extends != "" && !defined(u.extends)) {
-			bad = true
+	// An entry whose name and symbol are both taken over by later entries is not part of the
+	// resulting dictionary at all; whether a flaw in such an entry is reported is a don't-care.
+	badShadowed := false
+	for i, u := range users {
+		live := false
+		{
+			bySymbol, byName := true, true
+			for _, later := range users[i+1:] {
+				bySymbol = bySymbol && later.display != u.display
+				byName = byName && later.name != u.name
+			}
+			live = bySymbol || byName
 		}
+		flawed := u.name == "" || (u.extends == "" && len(u.attrs) == 0) || (u.extends != "" && !defined(u.extends))
 		for _, a := range u.attrs {
 			if a == "NoSuchAttr" {
-				bad = true
+				flawed = true
 			}
 		}
+		if flawed && live {
+			bad = true
+		}
+		if flawed && !live {
+			badShadowed = true
+		}
+	}
+	if badShadowed && !bad {
+		vf.Reach("dont-care-shadowed-entry")
+		return
 	}
 	// cycle among user chords. With a re-used name "extends N" can be read by name (N extends
 	// N is a cycle) or by resolution (N means the later definition): where the two readings
@@ -303,9 +328,13 @@ func VerifC16UserDict() {
 		return
 	}
 	// usable like built-ins: parent-first transitive closure
+	// (where two entries share a name or a symbol, the later definition is the one in force)
 	for i, u := range users {
-		got, ok := m.GetChordAttributes(u.display)
-		vf.Assert("user-chord-resolves-by-symbol", ok)
+		lastBySymbol, lastByName := true, true
+		for _, later := range users[i+1:] {
+			lastBySymbol = lastBySymbol && later.display != u.display
+			lastByName = lastByName && later.name != u.name
+		}
 		var want []string
 		var walk func(j, depth int)
 		walk = func(j, depth int) {
@@ -326,11 +355,22 @@ func VerifC16UserDict() {
 			want = append(want, x.attrs...)
 		}
 		walk(i, 0)
-		same := len(got) == len(want)
-		for j := 0; same && j < len(got); j++ {
-			same = got[j].Name == want[j]
+		check := func(key string) bool {
+			got, ok := m.GetChordAttributes(key)
+			same := ok && len(got) == len(want)
+			for j := 0; same && j < len(got); j++ {
+				same = got[j].Name == want[j]
+			}
+			return same
 		}
-		vf.Assert("inherits-parents-notes-transitively-parent-first", same)
+		if lastBySymbol {
+			_, ok := m.GetChordAttributes(u.display)
+			vf.Assert("user-chord-resolves-by-symbol", ok)
+			vf.Assert("inherits-parents-notes-transitively-parent-first", check(u.display))
+		}
+		if lastByName {
+			vf.Assert("user-chord-resolves-by-long-name-like-by-symbol", check(u.name))
+		}
 	}
 	// built-ins still work
 	bi, ok := m.GetChordAttributes("m7")
